@@ -1120,6 +1120,8 @@ def concatenate_nested(nested):
         parts = [rec(y, ax + 1) for y in x]
         return _concatenate(parts, axis=ax)
 
+    if isinstance(nested, (list, tuple)) and len(nested) == 0:
+        return SArr((0,), lambda idx: z3.RealVal(0))  # what the real concatenate3([]) gives: an empty 1-d array
     d = depth(nested)
     if d == 0:
         return nested
